@@ -290,6 +290,7 @@ func checkC10(c *Ctx) {
 	// "complete": the frame reaches the wire byte for byte
 	c09FormatStrings(c, "R-frame-verbatim")
 	c10HandlerErrorContained(c, "R-handler-error-contained")
+	c10MetaKept(c, "R-meta-kept")
 }
 
 func c10Client(c *Ctx) {
@@ -594,4 +595,45 @@ func c10HandlerErrorContained(c *Ctx, rule string) {
 	if n == 0 {
 		c.R.Hold(rule, "notification handler errors stay off the answer path", "", sprintf("%d function(s) hand a handler error on; none of them returns a call's answer", len(tainted)))
 	}
+}
+
+// ---------------------------------------------------------------- R-meta-kept
+// `_meta` travels in the params map of a notification. A constructor that moves it into the Meta member removes the
+// key from the map — but only a value it could take over (a comma-ok assertion to the map type succeeded) may be
+// removed; otherwise a `_meta` of another map type (mcp.Meta is one) is deleted and appears nowhere in the message.
+func c10MetaKept(c *Ctx, rule string) {
+	n := 0
+	for _, fn := range c.P.LibFns {
+		if clientSide(c, fn) {
+			continue
+		}
+		ir.EachInstr(fn, func(_ *ssa.BasicBlock, _ int, in ssa.Instruction) {
+			call, ok := in.(*ssa.Call)
+			if !ok {
+				return
+			}
+			b, ok := call.Call.Value.(*ssa.Builtin)
+			if !ok || b.Name() != "delete" || len(call.Call.Args) != 2 {
+				return
+			}
+			if k, ok := ir.ConstStr(ir.Unwrap(call.Call.Args[1])); !ok || k != "_meta" {
+				return
+			}
+			n++
+			taken := false
+			for _, g := range flow.Guards(fn, call.Block()) {
+				if ex, ok := g.If.Cond.(*ssa.Extract); ok && ex.Index == 1 && g.Branch {
+					if _, isTA := ex.Tuple.(*ssa.TypeAssert); isTA {
+						taken = true
+					}
+				}
+			}
+			// every dynamic type the value can have is taken over: a type switch / several assertions — accept when the
+			// delete is not reachable on an edge where all assertions failed (handled by the guard test above), or when
+			// the function stores the looked-up value itself (whatever its type) somewhere
+			c.R.Check(taken, rule, "removal of _meta in "+fname(fn), c.Pos(call.Pos()), "removed only after a successful assertion took the value over",
+				sprintf("%s deletes \"_meta\" from the params whether or not it could take the value over (the delete is not controlled by the success of the type assertion): a _meta of another map type — mcp.Meta — is removed and never sent", fname(fn)))
+		})
+	}
+	c.R.Min(rule, 2)
 }
